@@ -551,9 +551,10 @@ func runC12(c *cli.Ctx) error {
 	if err := w.Flush(); err != nil {
 		return err
 	}
-	// ---- stream stack: two or three counter middlewares stacked around one handler, each with its own label layout
-	// (code?, method?, labels derived from the request context); several requests with different context values.
-	// Every request is counted exactly once by every middleware, under its own label tuple.
+	// ---- stream stack: two or three middlewares (Counter, Duration, RequestSize, ResponseSize, TimeToWriteHeader)
+	// stacked around one handler, each with its own label layout (code?, method?, labels derived from the request
+	// context) and all with the same extra-method option; several requests with different context values.
+	// Every request is counted (observed) exactly once by every middleware, under its own label tuple.
 	w = emit.NewWriter(c.Out, "C12", "stack")
 	for i := 0; i < 150*c.Scale; i++ {
 		nm := 2 + r.Intn(2)
@@ -562,7 +563,15 @@ func runC12(c *cli.Ctx) error {
 			ctx          []string
 		}
 		lays := make([]lay, nm)
-		vecs := make([]*prometheus.CounterVec, nm)
+		vecs := make([]prometheus.Collector, nm)
+		kinds := make([]int, nm)
+		var extra []string
+		switch r.Intn(3) {
+		case 1:
+			extra = []string{"PROPFIND"}
+		case 2:
+			extra = []string{"foo", "propfind"}
+		}
 		var h http.Handler = http.HandlerFunc(func(rw http.ResponseWriter, req *http.Request) {
 			if st, _ := req.Context().Value(stackKey("status")).(int); st != 0 {
 				rw.WriteHeader(st)
@@ -598,8 +607,7 @@ func runC12(c *cli.Ctx) error {
 			names = append(names, l.ctx...)
 			r3 := r.Fork()
 			sort.Slice(names, func(a, b int) bool { return r3.Bool() })
-			vecs[k] = prometheus.NewCounterVec(prometheus.CounterOpts{Name: fmt.Sprintf("c%d", k)}, names)
-			var opts []promhttp.Option
+			opts := []promhttp.Option{promhttp.WithExtraMethods(extra...)}
 			for _, n := range l.ctx {
 				n := n
 				opts = append(opts, promhttp.WithLabelFromCtx(n, func(ctx context.Context) string {
@@ -608,7 +616,25 @@ func runC12(c *cli.Ctx) error {
 				}))
 			}
 			lays[k] = l
-			h = promhttp.InstrumentHandlerCounter(vecs[k], h, opts...)
+			kinds[k] = r.Intn(5)
+			if kinds[k] == 0 {
+				cv := prometheus.NewCounterVec(prometheus.CounterOpts{Name: fmt.Sprintf("c%d", k)}, names)
+				vecs[k] = cv
+				h = promhttp.InstrumentHandlerCounter(cv, h, opts...)
+			} else {
+				hv := prometheus.NewHistogramVec(prometheus.HistogramOpts{Name: fmt.Sprintf("c%d", k)}, names)
+				vecs[k] = hv
+				switch kinds[k] {
+				case 1:
+					h = promhttp.InstrumentHandlerDuration(hv, h, opts...)
+				case 2:
+					h = promhttp.InstrumentHandlerRequestSize(hv, h, opts...)
+				case 3:
+					h = promhttp.InstrumentHandlerResponseSize(hv, h, opts...)
+				default:
+					h = promhttp.InstrumentHandlerTimeToWriteHeader(hv, h, opts...)
+				}
+			}
 		}
 		nreq := 2 + r.Intn(3)
 		reqs := make([]string, nreq)
@@ -647,13 +673,22 @@ func runC12(c *cli.Ctx) error {
 				for j, lp := range mm.Label {
 					ps[j] = emit.Pair(emit.S(lp.GetName()), emit.S(lp.GetValue()))
 				}
-				children = append(children, emit.Tup(emit.L(ps), emit.I(int(mm.Counter.GetValue()))))
+				n := 0
+				if mm.Counter != nil {
+					n = int(mm.Counter.GetValue())
+				} else {
+					n = int(mm.Histogram.GetSampleCount())
+				}
+				children = append(children, emit.Tup(emit.L(ps), emit.I(n)))
 			}
 			sort.Strings(children)
 			impl[k] = emit.L(children)
 		}
-		w.Add(emit.C(7, emit.L(ls), emit.SL(nil), emit.L(reqs), emit.Tup(emit.B(panicked), emit.L(impl))), true,
-			fmt.Sprintf("middlewares:%d", nm), fmt.Sprintf("requests:%d", nreq))
+		tags := []string{fmt.Sprintf("middlewares:%d", nm), fmt.Sprintf("requests:%d", nreq), fmt.Sprintf("extra-methods:%d", len(extra))}
+		for k := range kinds {
+			tags = append(tags, "kind:"+[]string{"Counter", "Duration", "RequestSize", "ResponseSize", "TimeToWriteHeader"}[kinds[k]])
+		}
+		w.Add(emit.C(7, emit.L(ls), emit.SL(extra), emit.L(reqs), emit.Tup(emit.B(panicked), emit.L(impl))), true, tags...)
 	}
 	if err := w.Flush(); err != nil {
 		return err
